@@ -116,6 +116,10 @@ _C18_TWO = {
     "v2v2_pa_pb_da": "registered under A, moved to B, dropped while A is current again",
     "v2v2_pa_db": "registered under A, dropped while B is current",
     "v2v2_pa_pb_pa_d": "A, B, A again, dropped",
+    "v2v2_pa_e_pa_pb_d": "v2/v2: a NON-FINAL event is delivered and re-polled under A (re-registration with the same task), then the pending operation moves to B",
+    "v2v1_pa_e_pa_pb_d": "A on v2, B on v1: non-final event re-polled under A, then the pending operation moves to B",
+    "v2v2_pa_e_pa_pb_e_pb": "v2/v2: non-final event re-polled under A, moved to B, final event delivered by B and polled",
+    "v2v2_pa_e_pa_db": "v2/v2: non-final event re-polled under A, dropped while B is current",
     "v1v1_pa_pb_d": "both tasks on the v1 C ABI: registered under A, re-polled under B",
     "v1v2_pa_pb_d": "task A on the v1 C ABI, task B on v2: registered under A, re-polled under B",
     "v2v1_pa_pb_d": "task A on v2, task B on the v1 C ABI: registered under A, re-polled under B",
@@ -180,6 +184,8 @@ def _c19(tier):
         H("c19_abibuf_u8_len0", ab + "u8, empty vector", 30, stubs=False, leak=True),
         H("c19_abibuf_u8_len1", ab + "u8, 1 item", 30, stubs=False, leak=True),
         H("c19_abibuf_u8_len3", ab + "u8, 3 items", 40, stubs=False, leak=True),
+        H("c19_abibuf_u32_len3", ab + "u32 (canonical payload 4 bytes wide: pointer steps are ELEMENTS), 3 items", 30, stubs=False, leak=True),
+        H("c19_abibuf_u64_len2", ab + "u64 (8 bytes wide), 2 items", 30, stubs=False, leak=True),
         H("c19_abibuf_val_len0", ab + "lifted payload, empty vector", 30, stubs=False, leak=True),
         H("c19_abibuf_val_len1", ab + "lifted payload, 1 item", 40, stubs=False, leak=True),
         H("c19_abibuf_val_len3", ab + "lifted payload, 3 items", 60, stubs=False, leak=True),
@@ -189,6 +195,13 @@ def _c19(tier):
         H("c19_write_u8_pd", wu + "poll; write future dropped mid-flight", 150, leak=True),
         H("c19_write_u8_ped", wu + "poll; event; dropped with the completion queued", 200, leak=True),
         H("c19_write_val_pd", wv + "poll; dropped mid-flight (every untransferred value lifted back and dropped once)", 400, leak=True),
+        H("c19_write2_u8", "two consecutive stream writes (u8, 2 items; host answers at once): write -> COMPLETED(k)/DROPPED(k) -> the same buffer resumed "
+          "with write_buf; after DROPPED (also DROPPED with k > 0, which the caller sees as Complete(k)) the intrinsic must not be called again", 160, leak=True),
+        H("c19_write2_u32", "the same with a 4-byte canonical payload: the resumed buffer must start at the first unsent ELEMENT", 160, leak=True),
+        H("c19_read2_u8", "two consecutive stream reads into one vector (capacity 2): after DROPPED(k > 0) the next read is refused without calling the host", 70, leak=True),
+        H("c19_maxlen_write_zst", "per-copy length clamp: write of a vector of zero-sized items whose length is symbolic over all of usize; the host must be "
+          "offered min(len, 2^28 - 1) items", 15, stubs=False),
+        H("c19_maxlen_read_zst", "per-copy length clamp: read into a vector of zero-sized items (capacity usize::MAX) with symbolic length", 15, stubs=False),
         H("c19_read_u8_pc", ru + "poll; cancel()", 150, leak=True),
         H("c19_read_u8_pec", ru + "poll; event; cancel() racing the queued completion", 200, leak=True),
         H("c19_read_u8_pep", ru + "poll; event; poll", 150, leak=True),
@@ -202,6 +215,7 @@ def _c19(tier):
         hs += [
             H("c19_write_u8_len0_pc", "zero-length stream write (u8): poll; cancel()", 150, leak=True),
             H("c19_next_u8", "RawStreamReader::next (capacity 1): item, or None at end of stream", 450, leak=True),
+            H("c19_deep_write2_u64_len3", "two consecutive stream writes, u64 payload, 3 items", 300, leak=True),
             H("c19_deep_abibuf_u8_len2", ab + "u8, 2 items", 40, stubs=False, leak=True),
             H("c19_deep_abibuf_val_len2", ab + "lifted payload, 2 items", 50, stubs=False, leak=True),
             H("c19_write_val_pc", wv + "poll; cancel() (needs ~10 GB)", 900, leak=True),
@@ -287,12 +301,12 @@ BOUNDS = {
 }
 
 BOUNDS["C18"] = {
-    "quick": {"operations": 1, "tasks": "1 or 2", "host_events": "<= 2", "polls": "<= 3", "schedules": "22 fixed scripts over {poll, event, cancel(), switch task, drop}",
+    "quick": {"operations": 1, "tasks": "1 or 2", "host_events": "<= 2", "polls": "<= 3", "schedules": "26 fixed scripts over {poll, event, cancel(), switch task, drop}",
               "task_abi": "one task: v1/v2 symbolic, clone returns same or fresh pointer (symbolic); two tasks: v2/v2, v1/v1, v1/v2, v2/v1", "unwind": 2},
-    "thorough": {"operations": 1, "tasks": "1 or 2", "host_events": "<= 2", "polls": "<= 4", "schedules": "29 fixed scripts", "unwind": 2},
+    "thorough": {"operations": 1, "tasks": "1 or 2", "host_events": "<= 2", "polls": "<= 4", "schedules": "33 fixed scripts", "unwind": 2},
 }
 BOUNDS["C19"] = {
-    "quick": {"streams": 1, "ends_per_harness": 1, "vector_len": "0, 1, 3 (AbiBuffer) / 0, 2 (write) / capacity 2 (read) / 1 (next)",
+    "quick": {"streams": 1, "ends_per_harness": 1, "vector_len": "0, 1, 3 (AbiBuffer u8/lifted), 3 (u32), 2 (u64) / 0, 2 (write) / capacity 2 (read) / symbolic over usize for zero-sized items",
               "host_events": "<= 1 per operation", "transfer_counts": "symbolic k <= remaining", "item_width": "1 byte",
               "payload": ["canonical u8", "lifted with lists (ownership ledger)"], "task_abi": "v1/v2 symbolic", "unwind": 5,
               "return_code": "all 2^32 inputs"},
@@ -324,6 +338,8 @@ ASSUMPTIONS_COMMON = [
     "returns it; clone/drop count references (v2); an event is delivered by removing the registration and then calling the callback "
     "(= TaskState::deliver_waitable_event)",
     "the harness polls with Waker::noop(); wake-ups are not observed",
+    "mock task trap: waitable_register / waitable_unregister naming a handle that the operation (or its owner) has already released (subtask.drop, "
+    "drop-readable/-writable ran) -- waitable.join on a closed index",
     "kani: --no-assertion-reach-checks (vacuity is guarded by explicit kani::cover! witnesses instead); default Kani checks otherwise "
     "(pointer validity, overflow, unwinding assertions ON)",
     "alias lint after every run (rtkani/alias_lint.py): no function outside the harness crate touches a harness static (guards against a Kani 0.68 "
@@ -397,7 +413,12 @@ ASSUMPTIONS["C19"] = [
     "the host copies k items out of / into the buffer at the moment it reports them (dangling-pointer check); written items are 0x10, 0x11, ..., "
     "items the host produces are 0x40, 0x41, ... (so order, duplication and loss are observable)",
     "mock traps (assertions): cancel without an operation in progress or while registered; drop of an end while an operation is in progress or while "
-    "registered; a second concurrent read/write on one end",
+    "registered; a second concurrent read/write on one end; ANY stream.read/write on an end whose previous copy answered DROPPED (CopyState.DONE); a "
+    "copy of more than Buffer.MAX_LENGTH = 2^28 - 1 items",
+    "wide canonical payloads (u32, u64): items are the little-endian values 0x10, 0x11, ...; the host checks the low byte of every element at stride "
+    "size_of::<T>() and that the neighbouring bytes are zero",
+    "zero-sized payload (a `stream` without element type) for the length clamp: a Vec<()> has any length without storage, so the length is symbolic over usize",
+    "c19_write2_* / c19_read2_u8: the host does not answer BLOCKED (assume) -- both rendezvous complete at once",
     "assume: handles in [1, 2^28), distinct",
     "should_panic harness c19_return_code_invalid_traps: a check placed after the call fails iff decode returns for an invalid code; the runner treats "
     "that failure as a violation",
@@ -698,8 +719,13 @@ def run_harness(prop: str, h: dict, crate: str, timeout: int, env: dict) -> dict
                 if bad:
                     res2["status"] = "failed"
                     res2["failed_real"] = bad
-            pm = PLAYBACK_RE.search(out2)
-            res["playback_test"] = pm.group(1) if pm else None
+            # Kani prints one unit test per failed check AND per satisfied cover: take the one that belongs to a failed check
+            tests = PLAYBACK_RE.findall(out2)
+            wanted = [f["description"] for f in res.get("failed_real", [])]
+            pick = [t for t in tests if any(d in t.split("#[test]")[0] for d in wanted)]
+            if not pick:
+                pick = [t for t in tests if "Check for `cover`" not in t.split("#[test]")[0]]
+            res["playback_test"] = pick[0] if pick else None
             res["playback_status"] = res2["status"]
             res["playback_failed"] = res2.get("failed_real", [])
             if res2["status"] == "failed" and res["playback_test"]:
